@@ -33,25 +33,25 @@ EmptyCache == [rounds |-> EmptyFn, rcvd |-> [i \in Idx |-> <<>>]]
 Rcvd(c, i) == IF i \in DOMAIN c.rcvd THEN c.rcvd[i] ELSE <<>>
 SetRcvd(c, i, s) == [j \in (DOMAIN c.rcvd) \cup {i} |-> IF j = i THEN s ELSE c.rcvd[j]]
 
-(* getCache(id, p): existing round, or create one, evicting the signer's     *)
-(* oldest id when it already has Max ids recorded.                           *)
+(* getCache(id, p): the round for id, created if needed.  Unless the signer already has a       *)
+(* partial in that round, the per-signer limit is applied first: when the signer already has     *)
+(* Max ids recorded its oldest one is evicted - for a new round AND for joining a round that     *)
+(* another signer created (repair of F18: the limit used to be skipped for existing rounds).     *)
 GetCache(c, idx, id) ==
-  IF id \in DOMAIN c.rounds THEN [c |-> c, ok |-> TRUE]
-  ELSE IF Len(Rcvd(c, idx)) >= Max THEN
-         LET ev == Head(Rcvd(c, idx)) IN
-         IF ev \notin DOMAIN c.rounds
-           THEN [c |-> c, ok |-> FALSE]            \* "evicted round missing from cache"
-           ELSE LET sigs2 == Remove(c.rounds[ev], idx)     \* round.flushIndex(idx)
-                    r1 == IF DOMAIN sigs2 = {} THEN Remove(c.rounds, ev)
-                          ELSE [c.rounds EXCEPT ![ev] = sigs2]
-                    r2 == [x \in (DOMAIN r1) \cup {id} |-> IF x = id THEN EmptyFn ELSE r1[x]]
-                IN [c |-> [rounds |-> r2,
-                           rcvd |-> SetRcvd(c, idx, Append(Tail(Rcvd(c, idx)), id))],
-                    ok |-> TRUE]
-       ELSE [c |-> [rounds |-> [x \in (DOMAIN c.rounds) \cup {id} |->
-                                   IF x = id THEN EmptyFn ELSE c.rounds[x]],
-                    rcvd |-> c.rcvd],
-             ok |-> TRUE]
+  IF id \in DOMAIN c.rounds /\ idx \in DOMAIN c.rounds[id] THEN [c |-> c, ok |-> TRUE]
+  ELSE
+    LET ev == Head(Rcvd(c, idx))
+        full == Len(Rcvd(c, idx)) >= Max
+    IN IF full /\ ev \notin DOMAIN c.rounds
+         THEN [c |-> c, ok |-> FALSE]            \* "evicted round missing from cache"
+         ELSE LET c1 == IF ~full THEN c
+                        ELSE LET sigs2 == Remove(c.rounds[ev], idx)     \* round.flushIndex(idx)
+                                 r1 == IF DOMAIN sigs2 = {} THEN Remove(c.rounds, ev)
+                                       ELSE [c.rounds EXCEPT ![ev] = sigs2]
+                             IN [rounds |-> r1, rcvd |-> SetRcvd(c, idx, Tail(Rcvd(c, idx)))]   \* Append records id when it is stored
+                  r2 == IF id \in DOMAIN c1.rounds THEN c1.rounds
+                        ELSE [x \in (DOMAIN c1.rounds) \cup {id} |-> IF x = id THEN EmptyFn ELSE c1.rounds[x]]
+              IN [c |-> [rounds |-> r2, rcvd |-> c1.rcvd], ok |-> TRUE]
 
 (* partialCache.Append(p) where p has signer idx, id and bytes identity tag  *)
 AppendOp(c, idx, id, tag) ==
